@@ -147,6 +147,8 @@ def values(ty, rng, n):
         grid = [g for g in grid if g >= 0]
     vs = [{"kind": "zero"}, {"kind": "one"}] if ty != "Float" else []
     vs += [{"kind": "fresh", "score": common.frac_str(g)} for g in grid]
+    if ty == "Log":
+        vs += [{"kind": "fresh", "score": x} for x in ("-800", "-1000", "-745", "-30")]   # differences beyond the exp overflow threshold
     if ty in ("MaxPlus", "Log"):
         vs.append({"kind": "fresh", "score": "-inf"})
         vs += [{"kind": "fresh", "score": common.frac_str(-g)} for g in GRID if g > 0]
